@@ -58,8 +58,7 @@ impl<'t> Parser<'t> {
     //     steps as usize
     // }
 
-    // // GJL for debugging only
-    #[allow(dead_code)]
+    /// Ordinal number of the current token. Used to detect lack of progress.
     pub(crate) fn position(&self) -> usize {
         self.pos
     }
